@@ -1,7 +1,7 @@
 (* C31: the decoder model (with the RFC Huffman decoder) on a whole block refines rfc_decode; closure through prop_C31. *)
 From Coq Require Import List ZArith Bool Lia ZifyBool ZifyNat.
 From Bfe Require Import lib.Val lib.Bytes gen.HpackTables model.Huffman model.Hpack run.RunC31
-  proofs.HuffmanProofs proofs.HpackProofs proofs.HpackRfcProofs proofs.HpackIncrProofs proofs.HpackLimProofs proofs.HpackEmitProofs.
+  proofs.HuffmanProofs proofs.HpackProofs proofs.HpackRfcProofs proofs.HpackIncrProofs proofs.HpackLimProofs proofs.HpackEmitProofs proofs.HpackSafeProofs.
 Import ListNotations.
 Open Scope Z_scope.
 
@@ -67,7 +67,7 @@ Qed.
 Theorem C31_central_lemma i : wf_C31 i = true -> kf_C31 i = 0 -> prop_C31 i (run_C31 i) = true.
 Proof.
   unfold wf_C31, prop_C31, run_C31. intros Hwf _. destruct (decode_input i) as [[[[mx M] k] chunks]|]; [|discriminate].
-  apply andb_true_iff in Hwf. destruct Hwf as [Hwf Hk]. apply andb_true_iff in Hwf. destruct Hwf as [Hwf Hw].
+  apply andb_true_iff in Hwf. destruct Hwf as [Hwf Hw].
   apply andb_true_iff in Hwf. destruct Hwf as [Hmx HM].
   apply Z.leb_le in Hmx. apply Z.eqb_eq in HM. subst M.
   pose proof (decoder_refines_rfc mx chunks Hmx Hw) as H. unfold observe.
@@ -80,9 +80,18 @@ Proof.
     rewrite val_fields_roundtrip, fields_eqb_refl, Hs, Hr.
     change (tab_size (rev (ents (ddt d)))) with (tsum (rev (ents (ddt d)))). rewrite tsum_rev, rev_length.
     unfold vnat. rewrite !Z.eqb_refl. reflexivity.
-  - rewrite orb_false_r in Hk. rewrite (run_e_all huff_decode_spec 0 chunks _ k [] ltac:(lia)), Erun.
-    assert (st =? ST_PANIC = false) as -> by (unfold ST_PANIC in *; lia).
-    rewrite val_fields_roundtrip. apply orb_true_iff. left. apply negb_true_iff. lia.
+  - destruct (k <? 0) eqn:Ek.
+    + rewrite (run_e_all huff_decode_spec 0 chunks _ k [] ltac:(lia)), Erun.
+      assert (st =? ST_PANIC = false) as -> by (unfold ST_PANIC in *; lia).
+      rewrite val_fields_roundtrip. apply orb_true_iff. left. apply negb_true_iff. lia.
+    + assert (forall v, huff_decode_spec v <> HPanic) as Hnp'
+        by (intros v; unfold huff_decode_spec; destruct (rfc_huff_decode v); discriminate).
+      assert (safe_state (new_decoder mx)) as Hss
+        by (split; [unfold new_decoder, empty_dt, tab_ok; cbn; lia|reflexivity]).
+      pose proof (run_e_safe huff_decode_spec Hnp' 0 chunks (new_decoder mx) k [] Hss Hw) as Hsafe.
+      destruct (dec_run_e huff_decode_spec 0 (new_decoder mx) k chunks []) as [[d2 fs2] st2].
+      assert (st2 =? ST_PANIC = false) as -> by (unfold ST_PANIC in *; lia).
+      rewrite val_fields_roundtrip. apply orb_true_iff. right. lia.
 Qed.
 Definition ex_input31 : val := VL [VZ 4096; VZ 0; VZ 2; VL [VB [32; 63]; VB [33; 130; 64]; VB []; VB [1; 120; 129]; VB [7; 190]]].
 Lemma ex_input31_ok : wf_C31 ex_input31 = true /\ agree_C31 ex_input31 (run_C31 ex_input31) = true
@@ -183,7 +192,7 @@ Theorem run_C31_trie_eq i : wf_C31 i = true ->
   match decode_input i with Some (_, _, k, _) => k < 0 | None => True end -> run_C31_trie i = run_C31 i.
 Proof.
   unfold wf_C31, run_C31_trie, run_C31. destruct (decode_input i) as [[[[mx M] k] chunks]|]; [|discriminate].
-  intros H Hk. apply andb_true_iff in H. destruct H as [H _]. apply andb_true_iff in H. destruct H as [H Hw].
+  intros H Hk. apply andb_true_iff in H. destruct H as [H Hw].
   apply andb_true_iff in H. destruct H as [_ HM].
   apply Z.eqb_eq in HM. subst M. unfold observe. rewrite !run_e_all by exact Hk. rewrite !dec_run_lim0.
   rewrite (dec_run_ext huff_decode huff_decode_spec huff_decode_eq_spec mx chunks Hw). reflexivity.
